@@ -266,7 +266,7 @@ CHECKS["C11"] = {
     "corpus": True,
     "runs": [R("./vm", {"fn": r"^ZZ_C11_"})],
     "expect_asserts": [r"C11\.convert/value-as-go-converts/int64->int8", r"C11\.convert/value-as-go-converts/float64->int32", r"C11\.convert-table/convertible-iff-go-converts/.*", r"C11\.call/fixed/integers-converted-as-go",
-                       r"C11\.call/variadic-spread/tail-elements", r"C11\.results/several-in-order", r"C11\.identity/define-get-same-pointer", r"C11\.method/pointer-receiver-called-with-receiver", r"C11\.callback/result-converted-to-declared-type", r"C11\.host-values/value-is-go's-conversion/.*"],
+                       r"C11\.call/variadic-spread/tail-elements", r"C11\.results/several-in-order", r"C11\.identity/define-get-same-pointer", r"C11\.method/pointer-receiver-called-with-receiver", r"C11\.callback/result-converted-to-declared-type", r"C11\.host-values/value-is-go's-conversion/.*", r"C11\.members/same-named-types/reads-each-value's-own-field"],
     "bounds": {"conversion lemma": "symbolic int64 / float64 sources (plain and interface-wrapped) x 11 numeric target types; 21 rows of non-numeric pairs (nil -> zero value, element-wise slices and maps, 1-character strings, unconvertible pairs)",
                "calls": "13 call shapes over host functions that record their arguments (fixed with six parameter types, variadic, variadic interface, slice parameter, spread, 0/1/2/3 results, (value, error))",
                "identity / members": "13 cases over a struct pointer, a struct value, a typed slice, an error value", "callbacks": "7 cases over five Go func types"},
